@@ -128,8 +128,11 @@ def real_escape_expr():
 
     def esc(text):
         w.xml_parser.extract_docstring = lambda *a, **k: text
-        with contextlib.redirect_stdout(io.StringIO()):
-            with_ = w._wrap_method(method=method, cpp_class="A", prefix="\n", suffix=suffix)
+        try:
+            with contextlib.redirect_stdout(io.StringIO()):
+                with_ = w._wrap_method(method=method, cpp_class="A", prefix="\n", suffix=suffix)
+        except Exception as ex:  # noqa: BLE001  a documentation text must never make generation fail
+            return ', "<<generation raised %s for this documentation text>>"' % type(ex).__name__
         if not (with_.startswith(stem) and with_.endswith(tail)):
             return "<<output with XML differs from output without XML outside the inserted literal>>" + with_
         return with_[len(stem):-len(tail)]
